@@ -291,6 +291,30 @@ def p_idclash(thorough=False, H=8, timeout=150):
     return obs
 
 
+def p_auto_in_workplace(thorough=False, H=8, timeout=150):
+    """An automatic task without a component that is nevertheless listed among a workplace's targeted tasks (and a team's), next to a
+    facility task; every dependency kind between the two, in both directions."""
+    obs = []
+    for k in (0, 1, 2, 3):
+        for first_auto in (False, True):
+            ta = {"w": "$w1", "auto": True, "rate": 1}
+            tf = {"w": "$w0", "nf": True, "comp": 0}
+            tasks = [ta, tf] if first_auto else [tf, ta]
+            fi = 1 if first_auto else 0
+            wps = [{"targets": [0, 1], "cap": 1, "facs": [{"skills": {"0": 1, "1": 1}, "abs": ["$fa0"]}]}]
+            ws = [{"skills": {"0": 1, "1": 1}, "fskills": {"0": 1}}]
+            spec = {"tasks": tasks, "edges": [[0, 1, k]], "teams": [_team(ws, [0, 1])], "wps": wps, "comps": [{"size": 1}], "run": {"max_time": H}}
+            spec["tasks"][fi]["comp"] = 0
+            obs.append({"name": "autowp/k=%s/auto-first=%d" % (KN[k], first_auto), "harness": "sim", "cube": {"spec": spec},
+                        "params": [["w0", 0, 3 if thorough else 2], ["w1", 0, 3 if thorough else 2], ["fa0", -1, 2]], "timeout": timeout})
+    return obs
+
+
+def with_bare_ids(obs):
+    """The same members with the IDs "0", "1", ... for every kind of object (the ID text is then shared across kinds)."""
+    return [dict(ob, name="bare/" + ob["name"], cube=dict(ob["cube"], spec=dict(ob["cube"]["spec"], idstyle="bare"))) for ob in obs]
+
+
 def with_unit_time(obs, unit, H, widen=()):
     """The same members simulated with unit_time = `unit` (the clock advances by `unit` per step; absence lists hold times)."""
     out = []
@@ -575,6 +599,7 @@ def _obligations_for(prop, tier):
                   if "/rule=0/" in ob["name"] and "solo=None" in ob["name"] and "fix=None" in ob["name"] and ("/indep/" in ob["name"] or "/fork/" in ob["name"] or thorough)]
             obs += with_history(ed, "edited-model", 2)
         if prop == "C06":
+            obs += p_auto_in_workplace(thorough, H=12 if thorough else 8, timeout=900 if thorough else 150)
             obs += p_absence(wmax=3 if thorough else 2, H=12 if thorough else 8, timeout=900 if thorough else 200, kinds=(0, 2) if not thorough else (0, 1, 2, 3))
         if prop == "C04":
             obs += p_idclash(thorough, H=12 if thorough else 8, timeout=900 if thorough else 150)
@@ -636,6 +661,7 @@ def _obligations_for(prop, tier):
         return obs
     if prop == "C07":
         obs = split_param(split_param(p_cost(thorough, timeout=900 if thorough else 150), "pa0"), "a0") + p_facility(thorough, timeout=900 if thorough else 150)[:8]
+        obs += with_bare_ids(split_param([ob for ob in p_cost(thorough, timeout=900 if thorough else 150) if "fac=1" in ob["name"]], "pa0"))
         for kind in ("N1", "N2"):
             obs += [ob for ob in p_product(kind, thorough, timeout=900 if thorough else 150) if "wprule=0" in ob["name"] or thorough]
         return obs
